@@ -46,16 +46,16 @@ impl Service<Vec<u8>, ()> for NoSvc {
 
 /// Hands out the primary zone and the journal suffix.
 #[derive(Clone)]
-struct Provider {
-    zone: Zone,
+pub(super) struct Provider {
+    pub zone: Zone,
     /// (start serial, diff) in order.
-    journal: Arc<Vec<(u32, InMemoryZoneDiff)>>,
-    have_journal: bool,
+    pub journal: Arc<Vec<(u32, InMemoryZoneDiff)>>,
+    pub have_journal: bool,
 }
 
-impl XfrDataProvider<()> for Provider {
+impl<M> XfrDataProvider<M> for Provider {
     type Diff = InMemoryZoneDiff;
-    fn request<Octs>(&self, _req: &Request<Octs, ()>, diff_from: Option<Serial>) -> Pin<Box<dyn Future<Output = Result<XfrData<Self::Diff>, XfrDataProviderError>> + Sync + Send + '_>>
+    fn request<Octs>(&self, _req: &Request<Octs, M>, diff_from: Option<Serial>) -> Pin<Box<dyn Future<Output = Result<XfrData<Self::Diff>, XfrDataProviderError>> + Sync + Send + '_>>
     where
         Octs: octseq::Octets + Send + Sync,
     {
